@@ -18,8 +18,9 @@ import (
 // C14 — the secp256k1 implementation agrees with the curve mathematics.
 // Every family below is a FULL product of boundary alphabets; the oracle is verif/model/secp (textbook big.Int).
 // Levels observed: low  = secp256k1-go2 (primitives; panics on out-of-contract input are "reject by panic", counted),
-//                  mid  = secp256k1-go  (what package cipher calls),
-//                  top  = package cipher (must return errors, never panic, where it has an error return).
+//
+//	mid  = secp256k1-go  (what package cipher calls),
+//	top  = package cipher (must return errors, never panic, where it has an error return).
 func init() { register("C14", "exploration", c14) }
 
 type c14ctx struct {
@@ -130,6 +131,7 @@ func c14(r *engine.Run) {
 	step("sign", func() { c14Sign(c, S, alphabet) })
 	step("recover+verify", func() { c14Recover(c, S, alphabet) })
 	step("ecdh", func() { c14ECDH(c, S, alphabet) })
+	step("small-result", func() { c14SmallResults(c, alphabet) })
 	step("detkeys", func() { c14DetKeys(c, alphabet) })
 	alphabet["family_wall_s"] = timings
 
